@@ -179,7 +179,10 @@ def mkCfg (name trace recover domain icpt corsFlag origins allowH exposed maxAge
   let cors : Option Cors :=
     if corsFlag = "1" then Cors.sanitize (decL origins) (decL allowH) (decL exposed) (maxAge.toInt?.getD 0) (decBool cred)
     else some {}
-  cors.map (fun c => { name := decB name, trace := decBool trace, ic := decIcpt icpt, cors := c,
+  let ic := decIcpt icpt
+  -- the same rule given twice: `Interceptors.Add` panics, so does the constructor
+  if (ic.map (·.1)).eraseDups.length ≠ ic.length then none else
+  cors.map (fun c => { name := decB name, trace := decBool trace, ic := ic, cors := c,
                        urlDomain := decB domain, recover := recover ≠ "0",
                        recActs :=
                          -- "1": the harness's own function; s/w/l/g<status>: a bundled option (http.Error)
@@ -188,17 +191,33 @@ def mkCfg (name trace recover domain icpt corsFlag origins allowH exposed maxAge
                            let code := ((recover.drop 1).toString.toNat?).getD 500
                            httpErrorActs code (statusTextLen code) })
 
+/-- `textproto.CanonicalMIMEHeaderKey` (what `http.Header.Set/Add/Del` apply to the key): if every byte is a token byte,
+the first letter and every letter after a `-` are upper-cased, the others lower-cased; a key with any other byte
+(space, non-ASCII, …) is left as it is. Header maps belong to net/http, not to mux: the model works on canonical keys
+and the canonicalisation happens where a handler script enters the model. -/
+def isTokenByte (b : UInt8) : Bool :=
+  (48 ≤ b ∧ b ≤ 57) ∨ (65 ≤ b ∧ b ≤ 90) ∨ (97 ≤ b ∧ b ≤ 122) ∨
+  b = 33 ∨ b = 35 ∨ b = 36 ∨ b = 37 ∨ b = 38 ∨ b = 39 ∨ b = 42 ∨ b = 43 ∨ b = 45 ∨ b = 46 ∨ b = 94 ∨ b = 95 ∨ b = 96 ∨ b = 124 ∨ b = 126
+
+def canonKeyGo : Bytes → Bool → Bytes
+  | [], _ => []
+  | b :: r, up =>
+    let c := if up ∧ 97 ≤ b ∧ b ≤ 122 then b - 32 else if ¬ up ∧ 65 ≤ b ∧ b ≤ 90 then b + 32 else b
+    c :: canonKeyGo r (b = 45)
+
+def canonKey (k : Bytes) : Bytes := if k.all isTokenByte then canonKeyGo k true else k
+
 def decActs (tok : String) : List Act :=
   if tok = "%-" then []
   else (splitOnChar tok ';').filterMap (fun a =>
     match splitOnChar a ':' with
     | ["s", kv] => match splitOnChar kv '=' with
-      | [k, v] => some (.setHeader (decB k) (decB v))
+      | [k, v] => some (.setHeader (canonKey (decB k)) (decB v))
       | _ => none
     | ["a", kv] => match splitOnChar kv '=' with
-      | [k, v] => some (.addHeader (decB k) (decB v))
+      | [k, v] => some (.addHeader (canonKey (decB k)) (decB v))
       | _ => none
-    | ["d", k] => some (.delHeader (decB k))
+    | ["d", k] => some (.delHeader (canonKey (decB k)))
     | ["w", c] => c.toNat?.map .writeHeader
     | ["b", n] => n.toNat?.map .write
     | _ => none)
@@ -271,7 +290,11 @@ def step (st : St) (line : String) : St × String :=
       (st, "adm " ++ (if outs = [] then "%-" else "|".intercalate (sortStr (outs.map (fun o => encB o.1 ++ "{" ++ encM o.2 ++ "}"))))))
   | ["serve", rid, method, path, host, hdrs, accept] =>
     withRouter st rid (fun _ r =>
-      (st, fmtServe (r.serveHTTP env st.pc st.scripts (mkReq method path host hdrs accept) [])))
+      let req := mkReq method path host hdrs accept
+      -- `strings.EqualFold` / `TrimSpace` of the allowed-headers check are Unicode-aware; the model is ASCII
+      if ¬ r.cors.deny ∧ ((req.headers.get hACRH).any (· ≥ 128) ∨ r.cors.allowHeaders.any (fun h => h.any (· ≥ 128)))
+      then (st, "unsupported")
+      else (st, fmtServe (r.serveHTTP env st.pc st.scripts req [])))
   | ["url", rid, strict, pattern, params] =>
     withRouter st rid (fun _ r => (st, fmtUrl (r.url env (decBool strict) (decB pattern) (decM params))))
   | ["murl", pattern, params] => (st, fmtUrl (muxURL (decB pattern) (decM params)))
@@ -312,6 +335,8 @@ def step (st : St) (line : String) : St × String :=
   | ["hosts", hid, domains] =>
     match hid.toNat? with
     | some id =>
+      if (decL domains).any (fun d => d.any (· ≥ 128)) then
+        ({ st with hosts := update st.hosts id Hosts.empty, taintedHosts := id :: st.taintedHosts }, "unsupported") else
       match (decL domains).foldlM (fun hs d => hs.add d) Hosts.empty with
       | .ok hs => ({ st with hosts := update st.hosts id hs, taintedHosts := st.taintedHosts.filter (· ≠ id) }, "ok")
       | .error .unsupported => ({ st with hosts := update st.hosts id Hosts.empty, taintedHosts := id :: st.taintedHosts }, "unsupported")
@@ -321,6 +346,8 @@ def step (st : St) (line : String) : St × String :=
     match hid.toNat? >>= (fun id => (lookup st.hosts id).map (fun h => (id, h))) with
     | some (id, hs) =>
       if st.taintedHosts.contains id then (st, "unsupported") else
+      -- `strings.ToLower` folds Unicode and rewrites invalid UTF-8: outside the modelled (ASCII) domain
+      if (decB domain).any (· ≥ 128) then ({ st with taintedHosts := id :: st.taintedHosts }, "unsupported") else
       match hs.add (decB domain) with
       | .ok hs' => ({ st with hosts := update st.hosts id hs' }, "ok")
       | .error .unsupported => ({ st with taintedHosts := id :: st.taintedHosts }, "unsupported")
@@ -330,6 +357,7 @@ def step (st : St) (line : String) : St × String :=
     match hid.toNat? >>= (fun id => (lookup st.hosts id).map (fun h => (id, h))) with
     | some (id, hs) =>
       if st.taintedHosts.contains id then (st, "unsupported") else
+      if (decB domain).any (· ≥ 128) then ({ st with taintedHosts := id :: st.taintedHosts }, "unsupported") else
       match hs.delete (decB domain) with
       | .ok hs' => ({ st with hosts := update st.hosts id hs' }, "ok")
       | .error e => (st, fmtErr e)
